@@ -1449,6 +1449,18 @@ finish(void)
 		if (!reqs[i].done && !reqs[i].cancelled && reqs[i].cookie != NULL && simalloc_failed == 0)
 			sim_viol(reqs[i].dir ? "C06.wr.once" : "C06.rd.once", "never", "request id=%d never called back and was not cancelled", reqs[i].id);
 	release_all();
+	{
+		/* descriptor accounting: every socket the code under test created is closed by now (or was handed over and closed by the application) */
+		int k, nopen = 0, fdx = -1;
+
+		for (k = 0; k < VK_MAXSOCK; k++)
+			if (vk_socks[k].used && vk_socks[k].from_socket) {
+				nopen++;
+				fdx = vk_socks[k].fd;
+			}
+		if (nopen > 0)
+			sim_viol(simalloc_failed == 0 ? "C06.conn.fd-leak" : "C14.leak", "fd-leak", "%d socket(s) created by connection attempts (e.g. fd %d) are still open after every request completed or was cancelled", nopen, fdx);
+	}
 	/* a cancelled request must stay silent: run the loop once more with whatever is left */
 	{
 		struct timeval tv = { 0, 0 };
